@@ -372,6 +372,15 @@ func (l *Lexer) consumeNumber(noPanic bool) {
 		l.Token.Kind = token.TokenFloat
 	}
 
+	// "0x" must be followed by at least one hexadecimal digit.
+	if base == 16 && i == 2 {
+		if noPanic {
+			l.Token.Kind = token.TokenBad
+			return
+		}
+		l.panicfAtPosition(token.Pos(l.pos-i), token.Pos(l.pos), "hexadecimal literal requires at least one digit")
+	}
+
 	if l.peekOk(0) && char.IsIdentPart(l.peek(0)) {
 		if noPanic {
 			l.Token.Kind = token.TokenBad
